@@ -93,9 +93,32 @@ def ensure_makefile():
             raise RuntimeError("coq_makefile failed: " + out)
 
 
-def scan_forbidden():
+def coq_deps(vfiles):
+    """the .v files under coq/theories that the given files depend on (transitively), by their
+    `From Ford Require Import A.B ...` lines"""
+    seen, todo = set(), [COQ / v for v in vfiles]
+    while todo:
+        f = todo.pop()
+        if f in seen or not f.exists():
+            continue
+        seen.add(f)
+        txt = re.sub(r"\(\*.*?\*\)", "", f.read_text(), flags=re.S)
+        for m in re.finditer(r"From\s+Ford\s+Require\s+(?:Import|Export)\s+([^.]*(?:\.[A-Za-z_][\w.]*)*)\s*\.\s", txt + " "):
+            pass
+        for m in re.finditer(r"From\s+Ford\s+Require\s+(?:Import|Export)\s+(.*?)\.\s", txt + " ", flags=re.S):
+            for mod in m.group(1).split():
+                todo.append(COQ / "theories" / (mod.replace(".", "/") + ".v"))
+        for m in re.finditer(r"Require\s+(?:Import|Export)\s+Ford\.([\w.]+)\s*\.\s", txt + " "):
+            todo.append(COQ / "theories" / (m.group(1).replace(".", "/") + ".v"))
+    return sorted(seen)
+
+
+def scan_forbidden(vfiles=None):
+    """forbidden constructs in the development a property depends on (all of theories/ when no
+    files are given)"""
     bad = []
-    for f in sorted((COQ / "theories").rglob("*.v")):
+    files = coq_deps(vfiles) if vfiles else sorted((COQ / "theories").rglob("*.v"))
+    for f in files:
         txt = f.read_text()
         txt = re.sub(r"\(\*.*?\*\)", "", txt, flags=re.S)
         for m in FORBIDDEN.finditer(txt):
@@ -149,8 +172,11 @@ class Check:
 
     def props(self, vfile, expected):
         """Re-check Props/<id>.v and account for every expected theorem with its assumptions."""
-        bad = scan_forbidden()
+        corr = "theories/Corr/" + Path(vfile).name
+        bad = scan_forbidden([vfile, corr])
         self.obligation("no-axioms-admits-or-disabled-checks", not bad, "; ".join(bad))
+        self.extra.setdefault("coq_files_checked", []).extend(
+            str(f.relative_to(COQ)) for f in coq_deps([vfile, corr]))
         src = (COQ / vfile).read_text()
         declared = re.findall(r"^\s*(?:Theorem|Lemma)\s+(\w+)", src, flags=re.M)
         printed = re.findall(r"^\s*Print Assumptions\s+(\w+)\s*\.", src, flags=re.M)
